@@ -50,14 +50,20 @@ def lexable_block_value(v: str) -> bool:
     return block_string_value(v) == v
 
 
-def block_value_roundtrip(v: str, *, length: int, c0: int, c1: int = -1) -> bool:
-    """lex(print_block_string(v)).value == v (also minimized), and printing is a fixed point."""
+PREFIXES = ["", "S\n\n ", "a\n", "S\n\n  i\n"]
+
+
+def block_value_roundtrip(v: str, *, length: int, c0: int, c1: int = -1, prefix: int = 0) -> bool:
+    """lex(print_block_string(v)).value == v (also minimized), and printing is a fixed point.
+    With prefix > 0 the value is a concrete multi-line head (blank line, indented continuation)
+    followed by the symbolic tail."""
     assume(len(v) == length)
     v = fixlen(v, length)
     if length >= 1:
         assume(str_class(v[0]) == c0)
     if c1 >= 0:
         assume(str_class(v[1]) == c1)
+    v = PREFIXES[prefix] + v
     assume(lexable_block_value(v))
     try:
         for minimize in (False, True):
@@ -165,6 +171,7 @@ def string_in_context(v: str, block: bool, depth: int, *, length: int, c0: int, 
 HOLE_TEMPLATES = [
     ("query <N>($<N>: [<N>!]! = [<I>] @<N>) @<N>(<N>: $<N>) { <N>: <N>(<N>: {<N>: <N>}) ...<N> ... on <N> @<N> { <N> } }", "N"),
     ("fragment <N> on <N> { <N> } subscription { <N> } mutation <N> { <N> }", "N"),
+    ('"<S>" query { <N> } "<S>" query ($<N>: Int) { <N> } "<S>" mutation { <N> } "<S>" fragment <N> on <N> { <N> } "<S>" query <N> { <N> }', "NS"),
     ('{ f(a: <I>, b: [<I>, -<I>], c: {k: <I>}) }', "I"),
     ('{ f(a: <F>, b: [<F>]) }', "F"),
     ('{ f(a: "<S>", b: ["<S>"], c: {k: "<S>"}) @d(r: "<S>") }', "S"),
@@ -245,6 +252,7 @@ CONCRETE_DOCS = [
     "/repo/tests/fixtures/schema_kitchen_sink.graphql",
 ]
 EXTRA_SNIPPETS = [
+    '"About" query { a } """block""" query { b }',
     "fragment F($a: Int = 1 @d) on T { f(x: $a) ...G(y: 2) }",
     "directive @a @b(x: 1) on FIELD extend directive @a @c",
     "{ f(aaaaaaaaaaaaaaaaaaaaaaaaaaaaaaaaaaaaaaa: 1, bbbbbbbbbbbbbbbbbbbbbbbbbbbbbbbbbbbbbbbbbbbbbbbb: 2, ccccccccccc: 3) }",
@@ -295,6 +303,10 @@ def obligations(tier):
                     obs.append(dict(fn="block_value_roundtrip", cell=dict(length=n, c0=c0, c1=c1), budget_s=B))
             else:
                 obs.append(dict(fn="block_value_roundtrip", cell=dict(length=n, c0=c0), budget_s=B))
+    for prefix in (1, 2, 3):
+        for n in range(0, (3 if th else 2) + 1):
+            for c0 in range(5 if n else 1):
+                obs.append(dict(fn="block_value_roundtrip", cell=dict(length=n, c0=c0, prefix=prefix), budget_s=B))
     for n in range(0, (3 if th else 2) + 1):
         for c0 in range(5 if n else 1):
             obs.append(dict(fn="block_raw_roundtrip", cell=dict(length=n, c0=c0), budget_s=B))
@@ -313,6 +325,8 @@ def corpus():
     for w in range(len(CONCRETE_DOCS) + len(EXTRA_SNIPPETS)):
         yield "concrete_document", dict(which=w), {}
     yield "block_value_roundtrip", dict(length=3, c0=0), dict(v=" \x1dx")
+    yield "block_value_roundtrip", dict(length=2, c0=4, prefix=1), dict(v="xy")
+    yield "block_value_roundtrip", dict(length=1, c0=4, prefix=3), dict(v="z")
     yield "block_value_roundtrip", dict(length=4, c0=4), dict(v='a\nb"')
     yield "block_raw_roundtrip", dict(length=6, c0=1), dict(raw="\n  a\n ")
     yield "quoted_roundtrip", dict(length=4, c0=4), dict(v='a"\\ ')
